@@ -849,7 +849,17 @@ class Executor:
             elif pr[0] == "downcast":
                 v = self._downcast(v, pr[1])
             elif pr[0] == "constindex":
-                v = v.items[pr[1]] if isinstance(v, Tup) else self._unsup(f"const index on {v!r}")
+                if isinstance(v, Tup):
+                    v = v.items[pr[1]]
+                elif isinstance(v, Adt) and v.ty == "Vec":
+                    v = v.fields[pr[1]]
+                elif isinstance(v, Sym) and getattr(self, "model_sequences", False) and f"len:{v.name}" in st.facts \
+                        and pr[1] < st.facts[f"len:{v.name}"]:
+                    # slice pattern `[a, b, ..]` on a symbolic sequence whose length is fixed on this path
+                    import mirx
+                    v = mirx.seq_elem(self, v, pr[1])
+                else:
+                    v = self._unsup(f"const index on {v!r}")
             elif pr[0] == "index" and isinstance(v, Sym):
                 import mirx as _mirx
                 idx = self.deref(loc.get(pr[1]), st)
